@@ -279,16 +279,21 @@ pub fn device_from_json(v: &Value, position: usize) -> Device {
     let kind = get_str(v, "kind", "dio");
     let tag = get_u64(v, "tag", position as u64) as u32;
     let named = get_bool(v, "named", true);
-    let dc = match get_str(v, "dc", "none") {
-        "dc32" => DcKind::Bits32,
-        "dc64" => DcKind::Bits64,
+    // "ref32" / "ref64": distributed clocks without the enhanced sync unit (ESC feature bit 8 clear)
+    let dc_name = get_str(v, "dc", "none");
+    let dc = match dc_name {
+        "dc32" | "ref32" => DcKind::Bits32,
+        "dc64" | "ref64" => DcKind::Bits64,
         _ => DcKind::None,
     };
-    let opts = BuildOptions {
+    let mut opts = BuildOptions {
         dc_kind: dc,
         sii_read_8: get_bool(v, "sii8", false),
         ..Default::default()
     };
+    if dc_name.starts_with("ref") {
+        opts.features &= !0x0100;
+    }
     let (def_in, def_out) = match kind {
         "coupler" => (0, 0),
         "coe" => (64, 48),
